@@ -118,6 +118,38 @@ def check(run):
             run_case("rfc", n, ps, "sha512", "none")
             for c in corruptions[1:]:
                 run_case("rfc", n, ps, "sha256", c)
+    # header content is opaque: every byte value at each of the first positions of the hashed header (version, signature
+    # type, algorithms, length), with payloads that contain CR / LF / NUL / canonical JSON
+    payloads = [twin_canon({"a": [1, 2], "b": "x"}), b"line1\nline2\r\nline3\rend\n", b"\x00\n\x00", b"no newline"]
+    base_h = bytearray(crypto.DEFAULT_HDR)
+    nsweep = 0
+    for pos in range(0, 6 if quick else 12):
+        for val in range(256):
+            hb = bytearray(base_h)
+            hb[pos] = val
+            hb = bytes(hb)
+            data = payloads[(pos + val) % len(payloads)]
+            sig = crypto.gpg_sign(keys.seeds[1], data, hb)
+            out, exc, _ = lib.call(auth.verify_gpg_signature, {"other_headers": hb.hex(), "signature": sig.hex()}, keys.pub[1], data)
+            run.evaluations += 1
+            nsweep += 1
+            if out != "accept":
+                run.violation(f"verify_gpg_signature rejects ({out}) a signature over DigestInput(payload, header) when header byte {pos} is 0x{val:02x}"
+                              if False else f"verify_gpg_signature rejects ({out}) a correctly framed signature depending on the CONTENT of the hashed header (byte {pos})",
+                              {"kind": "gpg", "desc": f"header byte {pos} = 0x{val:02x}", "entry": {"other_headers": hb.hex(), "signature": sig.hex()}, "key": keys.pub[1],
+                               "data_hex": data.hex(), "outcome": out, "exc": exc})
+            # and a signature over a transformed payload (CRLF line ends, stripped trailing whitespace) must not verify for the original
+            for alt in (data.replace(b"\r\n", b"\n").replace(b"\r", b"\n").replace(b"\n", b"\r\n"), data.rstrip()):
+                if alt != data:
+                    sig2 = crypto.gpg_sign(keys.seeds[1], alt, hb)
+                    out2, _, _ = lib.call(auth.verify_gpg_signature, {"other_headers": hb.hex(), "signature": sig2.hex()}, keys.pub[1], data)
+                    run.evaluations += 1
+                    if out2 == "accept":
+                        run.violation(f"verify_gpg_signature accepts a signature made over a transformed payload (header byte {pos} dependent)",
+                                      {"kind": "gpg", "desc": f"header byte {pos} = 0x{val:02x}", "entry": {"other_headers": hb.hex(), "signature": sig2.hex()},
+                                       "key": keys.pub[1], "data_hex": data.hex(), "outcome": out2})
+            run._distinct.add(f"hdrbyte-{pos}-{val}")
+    run.extra["header_content_sweep"] = nsweep
     run.exhaustive = True
     # ---------------- real GnuPG
     try:
